@@ -248,8 +248,8 @@ func c09RunBatch(progs []string) {
 	if err := os.MkdirAll(dir, 0o755); err != nil {
 		panic(err)
 	}
-	c09WriteIfChanged(filepath.Join(dir, "go.mod"), "module racemod\n\ngo 1.16\n\nrequire github.com/google/safehtml v0.0.0\n\nreplace github.com/google/safehtml => /repo\n")
-	if sum, err := ioutil.ReadFile("/repo/go.sum"); err == nil {
+	c09WriteIfChanged(filepath.Join(dir, "go.mod"), "module racemod\n\ngo 1.16\n\nrequire github.com/google/safehtml v0.0.0\n\nreplace github.com/google/safehtml => "+repoRoot()+"\n")
+	if sum, err := ioutil.ReadFile(repoRoot() + "/go.sum"); err == nil {
 		c09WriteIfChanged(filepath.Join(dir, "go.sum"), string(sum))
 	}
 	c09WriteIfChanged(filepath.Join(dir, "race_test.go"), c09RaceTestSrc)
